@@ -1,7 +1,7 @@
 """C19 — narrow-phase queries terminate (exit discipline only)."""
 from . import scopes
 from ..core.report import DOMAIN_D
-from ..rules import loops, safediv, unpack, misc2, defined
+from ..rules import generic2, loops, safediv, unpack, misc2, defined
 from .common import NARROW_PHASE, lib_module_names
 
 
@@ -21,4 +21,5 @@ def run(idx, rep, tier):
     safediv.r_safediv(idx, rep, floor=4)
     misc2.r_basisguard(idx, rep)
     misc2.r_dupcond(idx, rep, [m.name for m in idx.lib_modules()], floor=3)
+    generic2.r_indextruth(idx, rep, [m.name for m in idx.lib_modules()], floor=25)
     unpack.r_unpack(idx, rep, floor=42)
